@@ -2648,6 +2648,21 @@ impl RxSim {
         }
     }
 
+    fn peer_send_raw(&mut self, so: i64, len: i64, fin: bool, ack_off: Option<i64>, win: u16) {
+        let seq = self.irs.wrapping_add(1).wrapping_add(so as u32);
+        let payload: Vec<u8> = (0..len).map(|j| byte_b((so + j) as u64)).collect();
+        let ack = match (ack_off, self.txo.iss) {
+            (Some(a), Some(iss)) => Some(iss.wrapping_add(1).wrapping_add(a as u32)),
+            _ => None,
+        };
+        let pkt = build_tcp(&self.peer_addr, &self.sock_addr, self.peer_port, self.sock_port, seq, ack, if fin { F_FIN } else { 0 }, win, &[], &payload);
+        if self.tracing {
+            self.tr(format!("peer tx RAW seq={}(off {}) len={} fin={}", seq, so, len, fin));
+        }
+        self.dev.rx.push_back(pkt);
+        self.poll();
+    }
+
     fn app_recv(&mut self, n: usize) {
         let mut buf = vec![0u8; n];
         let r = self.sock().recv_slice(&mut buf);
@@ -2740,6 +2755,20 @@ impl RxSim {
                 len = len.clamp(0, self.f_len - so);
                 let fin = fl.contains('F') && so + len == self.f_len;
                 self.peer_send(so, len, fin, fl.contains('P'), false, ao, win);
+            }
+            "rawseg" => {
+                // a segment anywhere in the sequence space (not clamped to the peer's stream, not
+                // entered into the oracle's books: whatever of it is acknowledged or delivered is a
+                // violation unless the stream really has those bytes there)
+                let so: i64 = kv("so").unwrap().parse().unwrap();
+                let len: i64 = kv("len").unwrap().parse().unwrap();
+                let ao: Option<i64> = match kv("ao") {
+                    None | Some("-") => None,
+                    Some(v) => Some(v.parse().unwrap()),
+                };
+                let win: u16 = kv("win").map(|v| v.parse().unwrap()).unwrap_or(1000);
+                let fl = kv("fl").unwrap_or("-");
+                self.peer_send_raw(so, len, fl.contains('F'), ao, win);
             }
             "ingress-only" => self.ingress_only = t.get(1) == Some(&"on"),
             "device-busy" => self.device_busy = t.get(1) == Some(&"on"),
